@@ -415,3 +415,29 @@ Proof.
   split; [intros x [H|[H|[]]]; subst; simpl; auto|].
   split; [vm_compute; reflexivity|]. split; vm_compute; reflexivity.
 Qed.
+
+(* Clause (iv) is also false on ACYCLIC graphs that carry a node condition (a consequence of the
+   false-articulation-point defect of clause (ii)): goals 0,2,4 (variables 0,1,2) originate at node 0,
+   each variable is re-bound at one inner node (bindings 1,3,5 at nodes 8,6,9), so the blocked set -
+   and the shortest path FindNodeBackwards follows from node 10 - depends on which goals are pending.
+   {0,2}: blocked {0,8,6}, the shortest path runs over node 5 and node 1 is (wrongly) taken for a
+   conditional articulation point; its condition (binding 6) is unsatisfiable: rejected.
+   {0,2,4}: node 9 is blocked too; accepted.  Every single goal is accepted. *)
+Definition refute_iv_acyc : graph :=
+  mkGraph [mkNode [] None; mkNode [0] (Some 6); mkNode [0] None; mkNode [0] None; mkNode [0] None;
+           mkNode [1; 2] None; mkNode [3] None; mkNode [1] None; mkNode [4] None; mkNode [7] None;
+           mkNode [8; 6; 5; 9] None]
+          [mkBinding 0 [mkOrigin 0 [[]]]; mkBinding 0 [mkOrigin 8 [[]]]; mkBinding 1 [mkOrigin 0 [[]]];
+           mkBinding 1 [mkOrigin 6 [[]]]; mkBinding 2 [mkOrigin 0 [[]]]; mkBinding 2 [mkOrigin 9 [[]]];
+           mkBinding 3 []].
+
+Theorem subset_closed_acyclic_cond_refuted_lemma :
+  exists g fuel n S S', wf_graph g = true /\ acyclic g /\ incl S' S /\
+    solve_fresh fuel g S n = Some true /\ solve_fresh fuel g S' n = Some false /\
+    option_map snd (run_queries fuel g sstate_empty [(S, n); (S', n)]) = Some [true; false].
+Proof.
+  exists refute_iv_acyc, 100, 10, [0; 2; 4], [0; 2].
+  split; [reflexivity|]. split; [apply topo_ids_acyclic; reflexivity|].
+  split; [intros x [H|[H|[]]]; subst; simpl; auto|].
+  split; [vm_compute; reflexivity|]. split; vm_compute; reflexivity.
+Qed.
